@@ -290,6 +290,7 @@ def _enable_events():
         anchors_missing.append(short + ':' + w)
   _line_codes[:] = line_codes
   kernel.install_monitoring(line_codes, op_codes)
+  kernel.install_coverage(line_codes)
 
 
 def enable_events_for(code_objects, opcode=False):
